@@ -26,7 +26,7 @@ ASSUMPTIONS = [
     'JSON format: numbers compared at double precision; custom strftime formats only with years >= 1000',
 ]
 BUDGET = {'quick': dict(examples=1000, shards=8, seconds=75),
-          'thorough': dict(examples=30000, shards=16, seconds=1200)}
+          'thorough': dict(examples=60000, shards=16, seconds=1200)}
 
 
 @st.composite
